@@ -66,7 +66,37 @@ theorem pair_sum (d a : ℝ) (pre post : ℕ → ℝ) (x : ℕ → ℝ) (W : ℕ
   | succ T ih =>
     rw [hW, ih, Finset.sum_range_succ, cumulative_trace_closed_form d a pre x hx0 hx (T + 1)]
 
+
+/-- **Prefix sums of intervals that are each at least `m`** (C19, offline refractory encoder): with the cumulative sum
+`S (t+1) = S t + x (t+1)` of inter-spike intervals `x i ≥ m` (the solver proves `m ≤ x i` at an arbitrary index on the
+real code), any two cumulative times `k` bins apart differ by at least `k * m`. -/
+theorem prefix_sum_gap (x S : ℕ → ℝ) (m : ℝ) (hS : ∀ t, S (t + 1) = S t + x (t + 1)) (hx : ∀ i, m ≤ x i) :
+    ∀ a k : ℕ, (k : ℝ) * m ≤ S (a + k) - S a := by
+  intro a k
+  induction k with
+  | zero => simp
+  | succ k ih =>
+    have h1 : S (a + (k + 1)) = S (a + k) + x (a + k + 1) := by
+      have := hS (a + k)
+      simpa [Nat.add_assoc] using this
+    have h2 := hx (a + k + 1)
+    have h3 : ((k + 1 : ℕ) : ℝ) * m = (k : ℝ) * m + m := by push_cast; ring
+    rw [h1, h3]
+    linarith
+
+/-- corollary: with `S 0 = x 0` every cumulative time is at least `(t + 1) * m` (in particular non-negative for `m ≥ 0`). -/
+theorem prefix_sum_lower (x S : ℕ → ℝ) (m : ℝ) (h0 : S 0 = x 0) (hS : ∀ t, S (t + 1) = S t + x (t + 1))
+    (hx : ∀ i, m ≤ x i) : ∀ t : ℕ, ((t : ℝ) + 1) * m ≤ S t := by
+  intro t
+  have h := prefix_sum_gap x S m hS hx 0 t
+  have h1 := hx 0
+  simp only [Nat.zero_add] at h
+  rw [h0] at h
+  nlinarith [h, h1]
+
 #print axioms cumulative_trace_closed_form
 #print axioms nearest_trace_closed_form
 #print axioms nearest_trace_since_last
 #print axioms pair_sum
+#print axioms prefix_sum_gap
+#print axioms prefix_sum_lower
